@@ -16,3 +16,43 @@ Fixpoint LabelsOK (prev : label) (ls : list label) : Prop :=
   | [] => True
   | l :: ls' => (l = WANT -> prev <> TEXT) /\ LabelsOK l ls'
   end.
+
+(* ---------- a chunk is tiled by its parts ---------- *)
+
+(* python's zip(bs, bs[1:]) slices followed by the open slice from the last boundary *)
+Definition tiles {A} (bs : list nat) (l : list A) : list (list A) :=
+  map (fun ab => slice (fst ab) (snd ab) l) (consecutive_pairs bs) ++ [skipn (last bs O) l].
+
+(* strictly ascending boundaries starting at 0 *)
+Fixpoint Ascending (bs : list nat) : Prop :=
+  match bs with
+  | a :: ((b :: _) as t) => (a < b)%nat /\ Ascending t
+  | _ => True
+  end.
+
+(* the parts made from one source/want chunk that starts at docstring line `lineno`:
+   there are boundaries 0 = b0 < b1 < ... < bk into the (dedented) source lines such that part j
+   holds exactly the lines [bj, bj+1) -- both the prompted and the de-prompted ones --, starts at
+   line lineno + bj, and only the last part carries the want *)
+Definition PartsTile (lineno : nat) (src want : list str) (ps : list part) : Prop :=
+  exists bs, hd_error bs = Some O /\ Ascending bs /\
+    map orig_lines ps = tiles bs src /\
+    map exec_lines ps = tiles bs (map (skipn 4) src) /\
+    map line_offset ps = map (Nat.add lineno) bs /\
+    map want_lines ps = repeat [] (length bs - 1) ++ [want].
+
+Definition dedent_chunk (raw : list str) : list str :=
+  match raw with [] => [] | first :: _ => map (skipn (line_indent first)) raw end.
+Definition dedent_want (raw_src raw_want : list str) : list str :=
+  match raw_src with [] => raw_want | first :: _ => map (skipn (line_indent first)) raw_want end.
+
+(* the items made from the chunks: every chunk becomes one text item or the parts that tile it,
+   in order, each starting at the docstring line where the chunk starts *)
+Inductive Tiled : nat -> list chunk -> list item -> Prop :=
+| Tiled_nil n : Tiled n [] []
+| Tiled_text n ls rest r :
+    Tiled (n + length ls) rest r -> Tiled n (TextChunk ls :: rest) (IText (join_nl ls) :: r)
+| Tiled_code n s w rest ps r :
+    PartsTile n (dedent_chunk s) (dedent_want s w) ps ->
+    Tiled (n + length s + length w) rest r ->
+    Tiled n (CodeChunk s w :: rest) (map IPart ps ++ r).
